@@ -274,6 +274,7 @@ theorem tuckerAls_accepts {nvecs : Nat → Dense ℝ → Nat → Nat → Mat ℝ
     {uniform : Nat → Nat → Nat → Mat ℝ} (hUni : ∀ c m p, (uniform c m p).nrows = m) (X : Dense ℝ) (hX : X.WF)
     (hN : 2 ≤ X.shape.length) (rank : List Nat)
     (hRl : (parseRank rank X.shape.length).length = X.shape.length)
+    (hR1 : ∀ r ∈ parseRank rank X.shape.length, 1 ≤ r)
     (hR : ∀ n < X.shape.length, (parseRank rank X.shape.length).getD n 0 ≤ X.shape.getD n 0)
     (stoptol : ℝ) (maxiters : Int) (hmax : 1 ≤ maxiters)
     (dimorder : Option (List Nat)) (hp : isPermOf (modeOrder dimorder X.shape.length) X.shape.length = true)
@@ -303,7 +304,11 @@ theorem tuckerAls_accepts {nvecs : Nat → Dense ℝ → Nat → Nat → Mat ℝ
   refine ⟨⟨⟨r.core, r.factors⟩, Uinit, Gen.itersReported r.iteration, r.normresidual, r.fit⟩, ?_⟩
   unfold tuckerAls tuckerAlsRun
   simp only
-  rw [if_neg (by omega), if_neg (by simpa using hRl), if_neg (by simpa using hp), hig]
+  rw [if_neg (by omega), if_neg (by simpa using hRl),
+    if_neg (by
+      simp only [Bool.or_eq_true, not_or, Bool.not_eq_true, List.any_eq_false, decide_eq_true_eq, not_lt]
+      exact ⟨hR1, ranksExceed_false.2 hR⟩),
+    if_neg (by simpa using hp), hig]
   simp only
   rw [hit]
   simp only
